@@ -92,6 +92,9 @@ package client
 //@ ensures [C13:parentctx2] calls(WT) == 1 ==> arg(WT,0,0) == (old(operation.Context) != nil ? old(operation.Context) : (old(r.Context) != nil ? old(r.Context) : ret(BG,0,0)))
 //@ ensures [C12:cancel] calls(WC) + calls(WT) == 1 ==> calls(CN) == 1
 //@ ensures [C13:client] calls(DO) == 1 ==> (old(operation.Client) != nil ==> arg(DO,0,0) == old(operation.Client)) && calls(RW) == 1 && arg(DO,0,1) == ret(RW,0,0) && arg(RW,0,0) == ret(CR,0,1) && arg(RW,0,1) == (calls(WC) == 1 ? ret(WC,0,0) : ret(WT,0,0))
+// the runtime's own client is created (sync.Once, outside the contracts) before the request is sent
+//@ watch ON = call (*sync.Once).Do
+//@ ensures [C13:ownclient] calls(DO) == 1 ==> calls(ON) == 1 && time(ON,0) < time(DO,0)
 //@ ensures [C12:transporterr] calls(DO) == 1 && ret(DO,0,1) != nil ==> result0 == nil && result1 == ret(DO,0,1) && calls(BC) == 0 && calls(RR) == 0
 //@ ensures [C12:close] calls(DO) == 1 && ret(DO,0,1) == nil ==> calls(BC) == 1
 //@ ensures [C13:ctheader] calls(PM) == 1 ==> calls(G) == 1 && arg(G,0,1) == "Content-Type" && arg(PM,0,0) == (ret(G,0,0) == "" ? r.DefaultMediaType : ret(G,0,0))
